@@ -27,6 +27,7 @@ META = {
     "level_note": "Thin claim by design (DESIGN.md C08). Trusts list.append/indexing semantics.",
 }
 META["technique"] += '; dominance of the `block_scope` test over every hand-over of the block stacks to a copied context'
+META["technique"] += '; include_partials may gate loaded templates only (children() of every Node); presence-by-key in the loaders'
 META["level_text"] += " Also decided: the parent's block stacks are handed to a copied context only on the block_scope branch."
 
 EXT = "liquid2/builtin/tags/extends_tag.py"
@@ -415,6 +416,15 @@ def run(prog: Program, res: Result) -> None:  # noqa: PLR0912, PLR0915
         else:
             res.ok("C08.R11", f"{gm.file}:{gm.node.lineno} RenderContext.{nm}", f"RenderContext.{nm}: context objects are reached by subscription only", "no `in` with the object on the right")
     res.floor("C08.R11", "item getters", n11, 2)
+
+    res.rule("C08.R12", "the inheritance walk sees every block a template holds: no Node.children[_async]() gates one of its own fields on include_partials (that flag hides loaded partials only); `_find_inheritance_nodes` runs with include_partials=False")
+    from checks.shared import check_children_not_partial_gated
+
+    check_children_not_partial_gated(prog, res, "C08.R12")
+    res.rule("C08.R13", "an empty template is a template: loaders decide 'not found' from the failed lookup, never from the truth value of the source text (the root of a chain may be the empty string)")
+    from checks.shared import check_source_presence_by_key
+
+    check_source_presence_by_key(prog, res, "C08.R13")
     res.rule("C08.R8", "the inheritance tags are never taken for whitespace: ExtendsNode and the inheritance BlockNode write the parent chain's / the override's text, so their `blank` flag is False however they are nested - a blank `extends` inside a `{% liquid %}` or `{% if %}` whose other children are blank is rendered into the null buffer and the page comes out empty, without an error (shared with C01.R2 / C18.R2, restricted to liquid2/builtin/tags/extends_tag.py)")
     from checks.blank import check_blank_flags
 
